@@ -25,6 +25,9 @@ REPLAYS = os.path.join(_OUT, 'replays') if _OUT else os.path.join(ROOT, 'out', '
 PY_SEMANTICS = [
     "python int is mathematical (true); float is treated as a real, NaN/inf only where a contract models them",
     "dict iterates in insertion order; set iteration order is arbitrary (universally quantified enumeration)",
+    "block contracts: where a contract lists `block_contracts`, the statements of those regions are replaced by the region's own "
+    "contract (precondition obliged, frame forgotten, postcondition assumed; the region is proved separately in the same run, "
+    "including its frame)",
     "== on modelled values is structural; `is None` is a tag test; tuples are products; `is` between two values of an "
     "abstract sort is equality only where the contract declares the sort to stand for objects (identity_sorts), "
     "out of reach otherwise",
